@@ -81,6 +81,25 @@ def run(ctx):
             lin = Form({m: c for m, c in sig.terms.items() if any(a == ("sym", "Vout") for a, _ in m)})
             rest = sig - lin
             ctx.check("C05.2", rest == S("bias"), fi, node, f"DAC [{ps}]: offset part = {rest!r}", "exactly + bias", "the waveform is offset by something other than `bias`")
+    # the Gaussian kernel itself, as a closed form in (T, m, c, sps): exp(-(1+jc)/2 * (t/(T/k))^(2m)), k = 2*(2 ln 2)^(1/(2m)),
+    # t = linspace(-4 sps, 4 sps, 8 sps) - the half-maximum width is T exactly because of that k
+    import ast as _ast
+    from ..absint import State
+    from ..forms import DictV
+    itg = Interp(pkg, assumptions={"pulse_shape": "gaussian", "BW": None, "Vout": "notnone", "bias": "notnone"}, param_classes={"input": "binary_sequence"},
+                 param_values={"kwargs": DictV([(Const("m"), S("m")), (Const("c"), S("c")), (Const("T"), S("T"))])})
+    itg.run(fi)
+    convs = [r for r in itg.calls if r.callee == "scipy.signal.fftconvolve"]
+    if len(convs) == 1 and len(convs[0].args) >= 2:
+        env = {"sps": SPS, "T": S("T"), "m": S("m"), "c": S("c")}
+        oracle_src = "np.exp(-(1 + 1j*c)/2 * (np.linspace(-4*sps, 4*sps, 8*sps) / (T / (2*(2*np.log(2))**(1/(2*m)))))**(2*m))"
+        want_p = Interp(pkg).eval(_ast.parse(oracle_src, mode="eval").body, State(env), fi, 0)
+        got_p = convs[0].args[1]
+        ctx.check("C05.1", isinstance(got_p, Form) and got_p == want_p, fi, convs[0].node, f"DAC [gaussian]: pulse kernel = {got_p!r}"[:300],
+                  "exp(-(1+jc)/2*(t/(T/k))^(2m)), k = 2*(2 ln2)^(1/(2m)), t over +-4 slots",
+                  f"the Gaussian kernel differs from the documented pulse {want_p!r}: its half-maximum width is no longer T for every order m (or its support / chirp term changed)"[:600])
+    else:
+        ctx.unknown("C05.1", fi, fi.node, "DAC [gaussian]: pulse kernel", "convolution call not found")
     it = Interp(pkg, assumptions={"pulse_shape": "triangle", "BW": None}, param_classes={"input": "binary_sequence"})
     outs = it.run(fi)
     ctx.check("C05.4", bool(outs) and all(o.kind == "raise" for o in outs) and outs[-1].exc == "ValueError", fi, fi.node, "DAC: unknown pulse_shape", "raises ValueError", "an unknown pulse shape does not raise ValueError")
@@ -119,6 +138,6 @@ def run(ctx):
         ctx.check("C05.3", ok, fs_, rets[0].node, f"SAMPLER [noise {noise}] -> signal {o.fields.get('signal')!r}", "input[instant::gv.sps] on signal and noise: stride = the DAC's expansion factor",
                   "SAMPLER is not input[instant::gv.sps] applied to signal and noise alike (start = instant, stride = gv.sps, no stop)")
     check_late_binding(ctx, "C05.5", ["devices.DAC", "devices.SAMPLER"])
-    ctx.require_min("C05.1", 7)
+    ctx.require_min("C05.1", 8)
     ctx.require_min("C05.3", 2)
     ctx.require_min("C05.4", 11)
